@@ -28,7 +28,8 @@ def run(tier, seed, replay=None):
     if tier == "thorough":
         rep.tlc(c.run_tlc("ConfigFileMC.tla", "ConfigFileMC3.cfg", heap="16g"))
     cases = []
-    for cfg, cap in (("ConfigFileGen1.cfg", None), ("ConfigFileGen2.cfg", 6000 if tier == "quick" else None), ("ConfigFileGen3.cfg", 1500 if tier == "quick" else None)):
+    for cfg, cap in (("ConfigFileGen1.cfg", None), ("ConfigFileGen2.cfg", 6000 if tier == "quick" else None), ("ConfigFileGen3.cfg", 1500 if tier == "quick" else None),
+                     ("ConfigFileGenSec.cfg", None)):
         g = c.run_tlc("ConfigFileMC.tla", cfg, heap="16g")
         rep.tlc(g)
         hs = [json.loads(x) for x in g.printed]
